@@ -25,7 +25,9 @@ def genCase : G (List String) := do
     -- exact datagram
     let h ← genHeader k
     let d := Spec.V5.encode h rs
-    pure (["call v5 " ++ hexOf d] ++ expectOk ⟨5, h, rs⟩)
+    -- the same datagram as it reaches the decoder in production: through the NetFlow pipe (one message per record)
+    pure (["call v5 " ++ hexOf d] ++ expectOk ⟨5, h, rs⟩ ++
+          ["pkt nf 0a000001 2055 1700000000000000000 " ++ hexOf d, "expect @res ok", "expect @count " ++ toString k])
   else
     -- k complete records, a partial one (0..47 bytes), header count c ∈ {k-1,k,k+1,30,65535,random}
     let cm ← below 6
@@ -43,7 +45,7 @@ def genCase : G (List String) := do
     pure (["call v5 " ++ hexOf d] ++ expectOk ⟨5, h, rs.take (min c k)⟩)
 
 def gen (n : Nat) : G (List String) := do
-  let mut out : List String := []
+  let mut out : List String := ["reset", "cfg c0 none", "pipe nf netflow c0"]
   for _ in [0:n] do
     out := out ++ (← genCase)
   pure out
